@@ -37,6 +37,7 @@ package remove_fields
 // in.  Nothing but the plugin's two fields is written.
 
 //@ func (*Plugin).Start
+//@   option check-nil yes
 //@   option allow-exit yes
 //@   ghost nparse int = 0
 //@   ghost gref int = 0
